@@ -43,7 +43,19 @@ type bsigner struct {
 	hosts map[string]bool
 }
 
+// one chain object per signer for the whole run (a caller loads its chain once and signs many bundles with it)
+var chainCache = map[*bsigner]certurl.CertChain{}
+
 func (s *bsigner) chain() certurl.CertChain {
+	if ch, ok := chainCache[s]; ok {
+		return ch
+	}
+	ch := s.newChain()
+	chainCache[s] = ch
+	return ch
+}
+
+func (s *bsigner) newChain() certurl.CertChain {
 	var certs []*x509.Certificate
 	for _, kc := range s.kcs {
 		certs = append(certs, kc.certs[0])
@@ -186,8 +198,11 @@ func bsigRun(args []string) error {
 	s4 := &bsigner{"s4", []*keyCert{newKeyCert("p384", []string{hostA}, 0), newKeyCert("p256", []string{"ca2.example"}, 30)}, map[string]bool{hostA: true}}
 	// s5: a certificate for a host the bundle has no exchange of - its vouched subset is empty (legal: it vouches for nothing)
 	s5 := &bsigner{"s5", []*keyCert{newKeyCert("p256", []string{"z.example"}, 0)}, map[string]bool{"z.example": true}}
-	seqs := [][]*bsigner{{s1}, {s2}, {s3}, {s5, s1}, {s1, s2}, {s2, s1}, {s1, s3}, {s3, s1}, {s2, s3}, {s1, s2, s3}, {s4}, {s4, s2}, {s2, s4}, {s4, s2, s1}, {s5}, {s2, s5}}
+	// s6: host A with a chain of three certificates (as NewCertChain / ReadCertChain build it: spare capacity behind it)
+	s6 := &bsigner{"s6", []*keyCert{newKeyCert("p256", []string{hostA}, 0), newKeyCert("p256", []string{"ca3.example"}, 20), newKeyCert("p256", []string{"root3.example"}, 40)}, map[string]bool{hostA: true}}
+	seqs := [][]*bsigner{{s1}, {s6, s2}, {s6, s5}, {s2}, {s3}, {s5, s1}, {s1, s2}, {s2, s1}, {s1, s3}, {s3, s1}, {s2, s3}, {s1, s2, s3}, {s4}, {s4, s2}, {s2, s4}, {s4, s2, s1}, {s5}, {s2, s5}}
 	ctx := &bsigCtx{}
+	var prev func()
 	week := int64(7 * 24 * 3600)
 	for _, ver := range []bversion.Version{bversion.VersionB1, bversion.VersionB2} {
 		for si, seq := range seqs {
@@ -256,6 +271,20 @@ func bsigRun(args []string) error {
 					return fmt.Errorf("harness: final signed bundle does not read back (%s)", verdict)
 				}
 				exp := date + dur
+				// the bundle of the PREVIOUS history, looked at again now that other bundles have been signed with the same
+				// signer objects: signing one bundle must not reach into another
+				if prev != nil {
+					prev()
+				}
+				{
+					pb, pdate, pdur, psigned, pexpect, pchains, porig, purls := b, date, dur, signed, expect, chains, orig, ctx.urls
+					prev = func() {
+						saved := ctx.urls
+						ctx.urls = purls
+						ctx.verifyEvent(cloneBundle(pb), pdate+pdur/2, 0, psigned, true, pexpect, pchains, porig, "honest mem", nil)
+						ctx.urls = saved
+					}
+				}
 				for _, t := range [][2]int64{{date - 1, 0}, {date, 0}, {date + dur/2, 0}, {exp, 0}, {exp, 1}, {exp + 1, 0}} {
 					ctx.verifyEvent(cloneBundle(b), t[0], int(t[1]), signed, true, expect, chains, orig, "honest mem", nil)
 					ctx.verifyEvent(cloneBundle(fb), t[0], int(t[1]), signed, true, expect, chains, orig, "honest file", file)
